@@ -3,10 +3,15 @@ package msgformat
 import (
 	"encoding/binary"
 	"errors"
+	"fmt"
+	"math"
 )
 
 // Add length prefix to message
 func AddRequestFormat(p []byte) ([]byte, error) {
+	if len(p) > math.MaxUint8 {
+		return nil, fmt.Errorf("message of %d bytes does not fit the 1-byte length prefix", len(p))
+	}
 	length := uint8(len(p))
 	prefixed := append([]byte{length}, p...)
 	return prefixed, nil
@@ -26,6 +31,9 @@ func RemoveRequestFormat(p []byte) ([]byte, error) {
 
 // Add length prefix to response, using uint16 instad of uint8 for larger payload
 func AddResponseFormat(p []byte) ([]byte, error) {
+	if len(p) > math.MaxUint16 {
+		return nil, fmt.Errorf("message of %d bytes does not fit the 2-byte length prefix", len(p))
+	}
 	length := uint16(len(p))
 	b := make([]byte, 2)
 	binary.BigEndian.PutUint16(b, length)
